@@ -47,6 +47,7 @@ from engine.common import setup_paths
 
 PROPERTY = 'C05'
 SECOND_PASS = ('run_shard',)     # see engine/common._run_shard
+_NX_REUSED = {}
 LEVEL = 'exploration'
 EXHAUSTIVE = True
 RULE = ('every CNF of engine.scope.cnfs(v,m) (clause alphabet with the empty clause, repeated and '
@@ -388,7 +389,16 @@ def transform(T, k, c, F, graph, fn=None):
             # inserted in index order, the two sides right-first or interleaved,
             # edges given right endpoint first
             import networkx
+            # ONE networkx object per shape, rewired in place from case to case
+            # (same nodes, often the same number of edges, other neighbourhoods)
+            B = _NX_REUSED.get((L, Rn, mode))
+            if B is not None:
+                B.remove_edges_from(list(B.edges()))
+                for (u, v) in edges:
+                    B.add_edge('r%d' % v, 'l%d' % u)
+                return S.VariableCompression(F, B, fn if fn is not None else T[:3])
             B = networkx.Graph()
+            _NX_REUSED[(L, Rn, mode)] = B
             lefts = [('l', i) for i in range(1, L + 1)]
             rights = [('r', j) for j in range(1, Rn + 1)]
             if mode == 1:
